@@ -73,6 +73,11 @@ Proof.
   right. apply IH. discriminate.
 Qed.
 
+(** [nreach nx a b]: node b is reached from node a along non-null next pointers *)
+Inductive nreach (nx : N -> N) : N -> N -> Prop :=
+| nr_here a : nreach nx a a
+| nr_next a b : nx a <> 0 -> nreach nx (nx a) b -> nreach nx a b.
+
 Section RamInv.
   Variables E R : N.
   Hypothesis HE : 1 <= E.
@@ -625,15 +630,15 @@ Section RamInv.
     pose proof (IA s0 Hr Ho0) as HA. pose proof (IB s0 Hr Ho0) as HB.
     pose proof (a_thr _ _ HA t) as Hta. pose proof (b_thr _ _ HB t) as Htb. rewrite Hpc in Hta, Htb. cbn [TA TB] in Hta, Htb.
     (* the D3 step *)
-    unfold step in Hsa. rewrite Hpc in Hsa. cbv zeta in Hsa. inversion Hsa; subst sa ea; clear Hsa.
+    unfold step, step_gen in Hsa. rewrite Hpc in Hsa. cbv beta iota zeta in Hsa. inversion Hsa; subst sa ea; clear Hsa.
     pose proof (run_others_th _ _ _ Hro) as Hth1. prj_in Hth1. rewrite upd_same in Hth1.
     (* the last step *)
-    unfold step in Hsb. rewrite Hth1 in Hsb. cbv zeta in Hsb.
+    unfold step, step_gen in Hsb. rewrite Hth1 in Hsb. cbv beta iota zeta in Hsb.
     destruct (pushi s0 h <=? p) eqn:Hq.
     - destruct (nnext s1 h =? 0) eqn:Hz; inversion Hsb; subst s2 eb; clear Hsb.
       + apply N.leb_le in Hq. apply N.eqb_eq in Hz.
         assert (Hrs : reachable (w_th s0 (upd (th s0) t (D4 h)))).
-        { eapply reach_step with (a := Step t); [exact Hr|]. unfold step. rewrite Hpc. cbv zeta. rewrite (proj2 (N.leb_le _ _) Hq). reflexivity. }
+        { eapply reach_step with (a := Step t); [exact Hr|]. unfold step, step_gen. rewrite Hpc. cbv beta iota zeta. rewrite (proj2 (N.leb_le _ _) Hq). reflexivity. }
         pose proof (old_in_nodes E HE HM s0 h (a_head _ _ HA) Hta) as Hin.
         destruct (run_monotone _ s1 h Hrs Hf Ho1 Hin) as (_ & _ & _ & Hback). prj_in Hback. specialize (Hback Hz).
         destruct (old_last_is_head s0 h HA Hta Hback) as [Hh He].
@@ -653,7 +658,7 @@ Section RamInv.
   Proof using HE HM.
     intros Hr Hpc Hst Hret Ho'. pose proof (ovf_sticky _ _ _ _ _ _ Hst Ho') as Ho.
     pose proof (IA s Hr Ho) as HA. pose proof (a_thr _ _ HA t) as Hta. rewrite Hpc in Hta. cbn [TA] in Hta. destruct Hta as [Hold Hcnt].
-    unfold step in Hst. rewrite Hpc in Hst. cbv zeta in Hst.
+    unfold step, step_gen in Hst. rewrite Hpc in Hst. cbv beta iota zeta in Hst.
     destruct (nnext s h =? 0) eqn:Hz; inversion Hst; subst s' es; clear Hst.
     - apply N.eqb_eq in Hz. destruct (old_last_is_head s h HA Hold Hz) as [Hh He]. repeat split; try assumption.
       apply (drained_claimed s h Hr Ho Hold Hz). right. lia.
@@ -735,5 +740,36 @@ Section RamInv.
   Proof using.
     intros H. step_cases H t; prj; try (left; reflexivity).
     all: right; exists t, b; rewrite upd_same; match goal with Hpc : th _ _ = _ |- _ => rewrite Hpc end; cbn [holds]; auto.
+  Qed.
+
+  (** RECLAMATION SAFETY of the node hand-over (what the tail CAS (16) in pop is for): the node _tail points
+      to is never a retired node.  False for the code before the repair
+      (RamExamples.ram_tail_not_retired_old_refuted). *)
+  Theorem ram_tail_not_retired st : reachable st -> g_ovf st = false -> forall n, In n (g_retired st) -> tail st <> n.
+  Proof using HE HM.
+    intros Hr Ho n Hn Heq. subst n. exact (a_tnr _ _ (IA st Hr Ho) Hn).
+  Qed.
+
+  (** no node that can be reached from _head or from _tail along next pointers is retired *)
+  Theorem ram_live_not_retired st : reachable st -> g_ovf st = false ->
+    forall n, nreach (nnext st) (head st) n \/ nreach (nnext st) (tail st) n -> ~ In n (g_retired st).
+  Proof using HE HM.
+    intros Hr Ho n Hn. pose proof (IA st Hr Ho) as HA. destruct (a_head _ _ HA) as (rest & He & _).
+    assert (Hl : lpath (nnext st) (head st :: rest)).
+    { pose proof (a_path _ _ HA) as Hp. rewrite He in Hp. eapply MsqInv.lpath_suffix; [exact Hp|discriminate]. }
+    assert (Hcl : forall a b, nreach (nnext st) a b -> In a (head st :: rest) -> In b (head st :: rest)).
+    { intros a b Hab. induction Hab as [a|a b Hz Hab IH]; intros Ha; [exact Ha|]. apply IH. apply MsqInv.lpath_next_in; assumption. }
+    assert (Ht : In (tail st) (head st :: rest)).
+    { pose proof (tail_in_nodes E HE HM st (a_tail _ _ HA)) as Hi. rewrite He in Hi. apply in_app_or in Hi.
+      destruct Hi as [Hi|Hi]; [exfalso; exact (a_tnr _ _ HA Hi)|exact Hi]. }
+    assert (Hin : In n (head st :: rest)).
+    { destruct Hn as [Hn|Hn]; [apply (Hcl _ _ Hn); left; reflexivity|exact (Hcl _ _ Hn Ht)]. }
+    intros Hc. pose proof (a_nodup _ _ HA) as Hnd. rewrite He in Hnd. exact (NoDup_app_notin _ _ _ n Hnd Hc Hin).
+  Qed.
+
+  (** the thread that is about to swing _head off a node (13) has seen to it that _tail is not on that node *)
+  Theorem ram_head_cas_tail_off st t h nx : reachable st -> g_ovf st = false -> th st t = D7 h nx -> tail st <> h.
+  Proof using HE HM.
+    intros Hr Ho Hpc. pose proof (a_thr _ _ (IA st Hr Ho) t) as Ht. rewrite Hpc in Ht. cbn [TA] in Ht. tauto.
   Qed.
 End RamInv.
